@@ -3,6 +3,7 @@
 package cl
 
 import (
+	"math"
 	"math/big"
 
 	"github.com/ohler55/slip"
@@ -112,4 +113,34 @@ func reduceNumber(v slip.Object) slip.Object {
 		v = ratReduce((*big.Rat)(tv))
 	}
 	return v
+}
+
+// addFixnums returns the sum of two fixnums which is a bignum if the sum
+// overflows a fixnum.
+func addFixnums(x, y slip.Fixnum) slip.Object {
+	if sum := x + y; (x < sum) == (0 < y) {
+		return sum
+	}
+	var z big.Int
+	return (*slip.Bignum)(z.Add(big.NewInt(int64(x)), big.NewInt(int64(y))))
+}
+
+// subtractFixnums returns the difference of two fixnums which is a bignum if
+// the difference overflows a fixnum.
+func subtractFixnums(x, y slip.Fixnum) slip.Object {
+	if dif := x - y; (dif < x) == (0 < y) {
+		return dif
+	}
+	var z big.Int
+	return (*slip.Bignum)(z.Sub(big.NewInt(int64(x)), big.NewInt(int64(y))))
+}
+
+// multiplyFixnums returns the product of two fixnums which is a bignum if the
+// product overflows a fixnum.
+func multiplyFixnums(x, y slip.Fixnum) slip.Object {
+	if product := x * y; x == 0 || (product/x == y && (x != -1 || y != math.MinInt64)) {
+		return product
+	}
+	var z big.Int
+	return (*slip.Bignum)(z.Mul(big.NewInt(int64(x)), big.NewInt(int64(y))))
 }
